@@ -252,7 +252,7 @@ def opFire (s : St) (tid : Nat) : St × Out :=
       | .switch => (fireSwitch s, .ok)
       | .recovery obj id stamp => (fireRecovery s obj id stamp, .ok)
 
-def step (s : St) : Op → St × Out
+def stepRaw (s : St) : Op → St × Out
   | .setAvail e a => (opSetAvail s e a, .ok)
   | .setEndpoints l => opSetEndpoints s l
   | .advance dt => ({ s with now := s.now + dt }, .ok)
@@ -268,13 +268,31 @@ def initLoop (s : St) : List String → Nat → St
     let old := r.1.eps.filter fun x => x.id == id
     initLoop { r.1 with eps := (r.1.eps.filter fun x => x.id != id) ++ [r.2], orphans := r.1.orphans ++ old } rest (i + 1)
 
-/-- `NewMultiEndpoint`; `none` = rejected (empty list) -/
-def init (r d : Int) (l : List String) : Option St :=
+/-- `NewMultiEndpoint` for non-negative durations and a list without repetitions; `none` = rejected (empty list) -/
+def initRaw (r d : Int) (l : List String) : Option St :=
   match l with
   | [] => none
   | first :: _ =>
     some (initLoop { r := r, d := d, eps := [], orphans := [], current := first, future := "",
                      timers := [], now := 0, nextObj := 0, nextTid := 0 } l 0)
+
+def runRaw (s : St) (ops : List Op) : St := ops.foldl (fun s op => (stepRaw s op).1) s
+
+/-! ### what the API does with its arguments first (F29, F30)
+
+An endpoint listed more than once keeps the position of its first occurrence (`uniqueEndpoints`); a
+negative recovery timeout or switching delay means none (`nonNegative`). The functions above are the
+machine behind that normalisation. -/
+
+def normOp : Op → Op
+  | .setEndpoints l => .setEndpoints l.eraseDups
+  | op => op
+
+/-- one API operation -/
+def step (s : St) (op : Op) : St × Out := stepRaw s (normOp op)
+
+/-- `NewMultiEndpoint` -/
+def init (r d : Int) (l : List String) : Option St := initRaw (max r 0) (max d 0) l.eraseDups
 
 def run (s : St) (ops : List Op) : St := ops.foldl (fun s op => (step s op).1) s
 
